@@ -3195,18 +3195,21 @@ impl<'w, 'r> LpcSubframeParameters<'w, 'r> {
         for split in usize::from(parameters.order.get())..channel.len() {
             let (previous, current) = channel.split_at(split);
 
+            // the prediction is a 64-bit quantity (RFC 9639 section 9.2.6);
+            // truncating it to 32 bits before subtracting would yield
+            // residuals only a wrapping decoder can undo
             residuals.push(
-                current[0]
-                    .checked_sub(
-                        (previous
+                i32::try_from(
+                    i64::from(current[0])
+                        - (previous
                             .iter()
                             .rev()
                             .zip(&parameters.coefficients)
                             .map(|(x, y)| *x as i64 * *y as i64)
                             .sum::<i64>()
-                            >> parameters.shift) as i32,
-                    )
-                    .ok_or(ResidualOverflow)?,
+                            >> parameters.shift),
+                )
+                .map_err(|_| ResidualOverflow)?,
             );
         }
 
